@@ -69,7 +69,7 @@ class SymBool:
         return hash(bool(self))
 
     def __repr__(self):
-        return 'SymBool(%s)' % self.e
+        return 'SymBool(%s)' % self.e.sexpr()[:60]
 
     def __copy__(self):
         return self
@@ -174,7 +174,9 @@ class SymNum:
         return hash(self.g.realize(self.e))
 
     def __repr__(self):
-        return '%s(%s)' % (type(self).__name__, self.e)
+        # never use z3's pretty printer here: the code under test formats values into error
+        # messages (e.g. Event.__getattr__), and the printer takes seconds on long sums
+        return '%s(%s)' % (type(self).__name__, self.e.sexpr()[:60])
 
     def __copy__(self):
         return self
